@@ -12,6 +12,9 @@ package dag
 //@   modifies openpgp.sigChecks, openpgp.lastKeyring, openpgp.lastSigned, openpgp.lastSignature, openpgp.lastSigOK, identity.entityKey
 //@   opt trusted_frame
 //@   ensures [pack-or-error] result1 == nil ==> result != nil
+// packEdit / packCreate (declared with the clock rebuild below): the logical times stored with a commit are what a
+// successful read of its pack holds
+//@   defines [times-of-the-commit] result1 == nil ==> result.EditTime == packEdit(commit.Hash) && result.CreateTime == packCreate(commit.Hash)
 // C07/C04: a pack is only read when its tree announces the format version this build writes (another version, none,
 // or an unreadable one is an error - never a best-effort decoding)
 //@   check [only-the-expected-format-is-read] result1 == nil ==> version == def.FormatVersion && version != 0
@@ -70,6 +73,9 @@ package dag
 // clocks are at least the times of every pack, so the next edit made here is stamped later than all of them.
 //@   check [all-packs-witnessed] err == nil ==> (forall h repository.Hash :: { oppMap[h] } (h in oppMap) ==> repository.clockSeen[def.Namespace + "-edit"] >= oppMap[h].EditTime && repository.clockSeen[def.Namespace + "-create"] >= oppMap[h].CreateTime)
 //@   ensures [clocks-monotone] forall n string :: { repository.clockSeen[n] } repository.clockSeen[n] >= old(repository.clockSeen[n])
+// ... in particular the head's: after a successful read the edit clock is at least the head commit's edit time (C05: a
+// merge commit is stamped after reading the local entity, so its time exceeds the local head's as well as the remote's)
+//@   ensures [head-witnessed] err == nil ==> repository.clockSeen[def.Namespace + "-edit"] >= packEdit(repository.refs[ref])
 //@   defines [head]       err == nil ==> entity.entityHead(result) == repository.refs[ref]
 //@   check [head-is-ref]  err == nil ==> rootHash == repository.refs[ref]
 // C03/C01: the packs are ordered by edit time, ties broken by the pack id - a total order on the packs that
@@ -94,19 +100,31 @@ package dag
 //@   check [single-root] err == nil ==> (forall k int :: { BFSOrder[k] } forall l int :: { BFSOrder[l] } 0 <= k && k < len(BFSOrder) && 0 <= l && l < len(BFSOrder) && len(BFSOrder[k].Parents) == 0 && len(BFSOrder[l].Parents) == 0 ==> k == l)
 //@   check [clock-edge] err == nil ==> (forall k int :: { BFSOrder[k] } 0 <= k && k < len(BFSOrder) ==> (forall j int :: { BFSOrder[k].Parents[j] } 0 <= j && j < len(BFSOrder[k].Parents) ==> (BFSOrder[k].Parents[j] in oppMap) && oppMap[BFSOrder[k].Parents[j]].EditTime < oppMap[BFSOrder[k].Hash].EditTime))
 //@   check [clock-jump] err == nil ==> (forall k int :: { BFSOrder[k] } 0 <= k && k < len(BFSOrder) && len(BFSOrder[k].Parents) <= 1 ==> (forall j int :: { BFSOrder[k].Parents[j] } 0 <= j && j < len(BFSOrder[k].Parents) ==> oppMap[BFSOrder[k].Hash].EditTime - oppMap[BFSOrder[k].Parents[j]].EditTime <= 1000000))
+//@   loop 1
+//@     invariant [head-first] (BFSOrder == nil || fresh(BFSOrder)) && (queue == nil || fresh(queue)) && !samearray(queue, BFSOrder) && (len(BFSOrder) == 0 ==> len(queue) > 0 && queue[0] == rootHash) && (len(BFSOrder) > 0 ==> BFSOrder[0].Hash == rootHash)
+//@   loop 2
+//@     invariant [head-first] (BFSOrder == nil || fresh(BFSOrder)) && (queue == nil || fresh(queue)) && !samearray(queue, BFSOrder) && len(BFSOrder) > 0 && BFSOrder[0].Hash == rootHash
 //@   loop 3
 //@     invariant opsCount >= 0
+//@     invariant [head-first] len(BFSOrder) > 0 && BFSOrder[0].Hash == rootHash
+//@     invariant [times] (forall h repository.Hash :: { oppMap[h] } (h in oppMap) ==> oppMap[h].EditTime == packEdit(h))
 //@     invariant [root-count] (rootCount == 0 || rootCount == 1) && (rootCount == 0 ==> (forall k int :: { BFSOrder[k] } 0 <= k && k <= rangeindex ==> len(BFSOrder[k].Parents) > 0))
 //@     invariant [one-root-so-far] forall k int :: { BFSOrder[k] } forall l int :: { BFSOrder[l] } 0 <= k && k <= rangeindex && 0 <= l && l <= rangeindex && len(BFSOrder[k].Parents) == 0 && len(BFSOrder[l].Parents) == 0 ==> k == l
 //@     invariant forall h repository.Hash :: { oppMap[h] } h in oppMap ==> oppMap[h] != nil
 //@     invariant forall k int :: { BFSOrder[k] } 0 <= k && k <= rangeindex ==> BFSOrder[k].Hash in oppMap
 //@   loop 4
+//@     invariant [head-first] len(BFSOrder) > 0 && BFSOrder[0].Hash == rootHash && (rootHash in oppMap)
+//@     invariant [times] (forall h repository.Hash :: { oppMap[h] } (h in oppMap) ==> oppMap[h].EditTime == packEdit(h))
 //@     invariant forall k int :: { BFSOrder[k] } 0 <= k && k <= rangeindex ==> (forall j int :: { BFSOrder[k].Parents[j] } 0 <= j && j < len(BFSOrder[k].Parents) ==> (BFSOrder[k].Parents[j] in oppMap) && oppMap[BFSOrder[k].Parents[j]].EditTime < oppMap[BFSOrder[k].Hash].EditTime)
 //@     invariant forall k int :: { BFSOrder[k] } 0 <= k && k <= rangeindex && len(BFSOrder[k].Parents) <= 1 ==> (forall j int :: { BFSOrder[k].Parents[j] } 0 <= j && j < len(BFSOrder[k].Parents) ==> oppMap[BFSOrder[k].Hash].EditTime - oppMap[BFSOrder[k].Parents[j]].EditTime <= 1000000)
 //@   loop 5
+//@     invariant [head-first] len(BFSOrder) > 0 && BFSOrder[0].Hash == rootHash && (rootHash in oppMap)
+//@     invariant [times] (forall h repository.Hash :: { oppMap[h] } (h in oppMap) ==> oppMap[h].EditTime == packEdit(h))
 //@     invariant forall j int :: { commit.Parents[j] } 0 <= j && j <= rangeindex ==> (commit.Parents[j] in oppMap) && oppMap[commit.Parents[j]].EditTime < opp.EditTime
 //@     invariant forall j int :: { commit.Parents[j] } 0 <= j && j <= rangeindex && len(commit.Parents) <= 1 ==> opp.EditTime - oppMap[commit.Parents[j]].EditTime <= 1000000
 //@   loop 6
+//@     invariant [head-first] len(BFSOrder) > 0 && BFSOrder[0].Hash == rootHash && (rootHash in oppMap)
+//@     invariant [times] (forall h repository.Hash :: { oppMap[h] } (h in oppMap) ==> oppMap[h].EditTime == packEdit(h))
 //@     invariant [seen-witnessed] forall h repository.Hash :: { iterseen[h] } iterseen[h] ==> repository.clockSeen[def.Namespace + "-edit"] >= oppMap[h].EditTime && repository.clockSeen[def.Namespace + "-create"] >= oppMap[h].CreateTime
 //@     invariant [monotone] forall n string :: { repository.clockSeen[n] } repository.clockSeen[n] >= old(repository.clockSeen[n])
 //@   loop 7
@@ -135,7 +153,7 @@ package dag
 // merge (C02): the five scenarios, decided on the ghost ref store and the ancestry relation.
 // (C15) ... and no ref outside refs/<namespace>/ is ever created, moved or deleted by it
 //@ func merge
-//@   props C02 C07 C06 C01 C15 C11
+//@   props C02 C07 C06 C01 C15 C11 C05
 //@   ensures [own-namespace-only] forall k string :: { (k in repository.refs) } !strings.HasPrefix(k, "refs/" + def.Namespace + "/") ==> (k in repository.refs) == (k in old(repository.refs)) && repository.refs[k] == old(repository.refs)[k]
 //@   pure wrapper
 //@   requires repo != nil && def.OperationUnmarshaler != nil
@@ -153,6 +171,9 @@ package dag
 //@   check [no-loss]  result.Status == entity.MergeStatusUpdated ==> repository.anc(l, repository.refs[localRef]) && repository.anc(r, repository.refs[localRef])
 // (C06) the merge commit is stamped with a time taken from - and therefore already persisted in - the repository
 // clock before the commit is written and the ref moved
+// (C05) ... and that time is strictly greater than the edit time of the local head *and* of the remote head: both
+// entities were read - and their clocks witnessed - before the clock was incremented
+//@   assert at `commitHash, err := opp.Write(def, repo, localCommit, remoteCommit)` [merge-commit-is-later-than-both-heads] opp.EditTime > packEdit(l) && opp.EditTime > packEdit(r)
 //@   assert at `commitHash, err := opp.Write(def, repo, localCommit, remoteCommit)` [merge-commit-stamped-from-the-clock] repository.clockSeen[def.Namespace + "-edit"] >= opp.EditTime && repository.refs == refs0
 // C07: whichever way the local ref comes to include the remote history - created, fast-forwarded or joined by a
 // merge commit - the remote entity passed validation first (not only when it is new here)
